@@ -177,11 +177,15 @@ impl<'a> PrettyPrinter<'a> {
         let repr = collect_markup_repr(markup);
 
         let mut doc = self.arena.nil();
-        for MarkupLine {
-            nodes,
-            breaks,
-            mixed_text,
-        } in repr.lines
+        let line_count = repr.lines.len();
+        for (
+            line_idx,
+            MarkupLine {
+                nodes,
+                breaks,
+                mixed_text,
+            },
+        ) in repr.lines.into_iter().enumerate()
         {
             for (i, node) in nodes.iter().enumerate() {
                 doc += if node.kind() == SyntaxKind::Space {
@@ -194,9 +198,15 @@ impl<'a> PrettyPrinter<'a> {
                     } else {
                         ctx
                     };
-                    // Content directly behind embedded code, as in `#(1)em`.
+                    // Content directly behind embedded code, as in `#(1)em`, or the closing `_` of
+                    // an emphasis, as in `_#(true)_`.
+                    let closes_emphasis = scope == MarkupScope::Strong
+                        && line_idx + 1 == line_count
+                        && i + 1 == nodes.len();
                     let glued = matches!(expr, Expr::Parenthesized(_))
-                        && (nodes.get(i + 1)).is_some_and(|next| next.kind() != SyntaxKind::Space);
+                        && (closes_emphasis
+                            || (nodes.get(i + 1))
+                                .is_some_and(|next| next.kind() != SyntaxKind::Space));
                     self.convert_expr(ctx.with_glued(glued), expr)
                 } else if is_comment_node(node) {
                     self.convert_comment(ctx, node)
